@@ -62,6 +62,23 @@ pub fn run_check(ctx: &Ctx) -> i32 {
         transitions += r.transitions;
         per_root.push(json!({"root": name, "states": r.states, "transitions": r.transitions, "depth": d, "capped": r.capped}));
     }
+    let (sd0, sd1) = if ctx.tier == Tier::Quick { (4, 3) } else { (6, 5) };
+    for (name, prefix, class) in c08::settings_roots(true) {
+        let d = if class == 0 { sd0 } else { sd1 };
+        let r = match c08::bfs(prefix, d, if ctx.tier == Tier::Quick { 6_000 } else { 300_000 }, 11 | 0x80) {
+            Ok(r) => r,
+            Err(e) => {
+                eprintln!("MACHINERY: {}", e);
+                return 2;
+            }
+        };
+        for (h, sig, what) in r.violations {
+            report.violation(sig, format!("history {:?}: {}", h, what), json!({"history": h.iter().map(|o| format!("{:?}", o)).collect::<Vec<_>>()}));
+        }
+        states += r.states;
+        transitions += r.transitions;
+        per_root.push(json!({"root": name, "states": r.states, "transitions": r.transitions, "depth": d, "capped": r.capped}));
+    }
     let mut ev = Evidence::new("model_checking");
     ev.set("states", json!(states))
         .set("transitions", json!(transitions))
@@ -72,7 +89,7 @@ pub fn run_check(ctx: &Ctx) -> i32 {
         .set("samples", json!([{"history": ["ArmP", "CsrP", "RootP", "AddNocP", "CompleteC(1)", "AclC(1)"]}]))
         .set("rule", json!(format!("every history of at most {} operations of the C08 alphabet from a factory-fresh node and a node with one fabric, at most {} from a node with two fabrics; after every operation a fresh node is started from the store cut at every point inside the operation; at the end of every history: read-back equality, 9 damaged resumption blobs, factory reset", d1, d2)));
     ev.assume("write granularity is one store / remove call of the key-value interface (a call is atomic; torn writes inside a call are the store implementation's business)");
-    ev.assume("binding, user-label and basic-information writes are not in the alphabet (the root-endpoint build of this harness has the fabric, ACL, group-key, label and network blobs)");
+    ev.assume("the settings alphabet (second exploration) writes the group key map, group membership, bindings (also a same-length replacement), user labels and the node label of endpoint 0; other basic-information attributes (location, local-config-disabled) and the time-zone lists are not written");
     if report.violations.is_empty() && (states < 20) {
         eprintln!("MACHINERY: vacuous C11 run");
         return 2;
